@@ -12,9 +12,10 @@ EmitBehaviour ==
     CSVWrite("%1$s", <<ToJson([cfg |-> cfg', steps |-> hist',
                                key |-> [tls |-> cfg.tls, lst |-> c.lst, lq |-> c.lq, enc |-> c.enc, session |-> c.session,
                                         authed |-> c.authed, canResume |-> c.canResume, iq |-> c.iq, redirect |-> c.redirect,
-                                        conf |-> conf, out |-> lastOut', sig |-> lastSig', lst2 |-> c'.lst, endSock |-> c'.sock]])>>, IOEnv.QXV_GEN)
+                                        conf |-> conf, prev |-> prev, out |-> lastOut', sig |-> lastSig', lst2 |-> c'.lst, endSock |-> c'.sock]])>>, IOEnv.QXV_GEN)
 
-GenView == <<cfg, c.sock, c.enc, c.wrap, c.lst, c.lq, c.ver, c.authed, c.session, c.smEnabled, c.smResumed,
+PrevClass == IF prev.none THEN 0 ELSE IF prev.authed THEN 2 ELSE 1
+GenView == <<cfg, PrevClass, c.sock, c.enc, c.wrap, c.lst, c.lq, c.ver, c.authed, c.session, c.smEnabled, c.smResumed,
              c.canResume, c.redirect, c.mech, c.step, c.iq>>
 
 =============================================================================
